@@ -7,18 +7,22 @@ import (
 // ---- analysis hooks -------------------------------------------------------
 
 // noteRead: limb j of v is read here.
-//   - a pointer parameter read while it may hold the caller's value is an
-//     "in" parameter;
+//   - a variable read while it may hold the value it had at the start of the
+//     function (pointer parameter: the caller's value) or of the current loop
+//     fragment is an "in" parameter of the function / fragment;
 //   - ALIASING CHECK: if limb j may last have been written through ANOTHER
 //     pointer parameter w, then with v == w (in-place call) Go would read the
 //     new value while the functional model reads the old one: rejected unless
 //     the pair is declared distinct in the configuration.
 func (ft *ftrans) noteRead(e *env, at ast.Node, v *gvar, j int) {
-	if !v.ptrParam {
+	if v.global {
 		return
 	}
 	if e.st[v].init[j] {
 		ft.inSeen[v] = true
+	}
+	if !v.ptrParam {
+		return
 	}
 	for w := range e.writers[j] {
 		if w != v && !ft.sum.assumesDistinct(v.name, w.name) {
@@ -30,14 +34,28 @@ func (ft *ftrans) noteRead(e *env, at ast.Node, v *gvar, j int) {
 }
 
 func (ft *ftrans) noteWrite(e *env, v *gvar, j int) {
+	e.st[v].init[j] = false
 	if !v.ptrParam {
 		return
 	}
 	if !ft.outSet[v] {
 		ft.p.failAt(ft.fd, "internal: write to %s missed by the pre-scan", v.name)
 	}
-	e.st[v].init[j] = false
 	e.writers[j] = map[*gvar]bool{v: true}
+}
+
+// scalar variables: "init" = may still hold the value it had at the start of
+// the current fragment (only meaningful inside loop fragments, see loops.go)
+func (ft *ftrans) noteScalarRead(e *env, v *gvar) {
+	if s, ok := e.st[v]; ok && s.sinit {
+		ft.inSeen[v] = true
+	}
+}
+
+func (ft *ftrans) noteScalarWrite(e *env, v *gvar) {
+	if s, ok := e.st[v]; ok {
+		s.sinit = false
+	}
 }
 
 // ---- access to limb variables --------------------------------------------
